@@ -295,6 +295,9 @@ func formatterCorpus(e *Engine, seed int) []string {
 	for _, s := range []string{
 		"// head\npacket P { // after brace\n u8 x, // after field\n // own line\n u8 y,\n // before close\n}\n// tail\n",
 		"MetaData M { // c1\n u8 a `doc a`, // c2\n // c3\n b c `doc c`, }\npacket P { a, repeat c x, }",
+		// basic-typed and identifier-typed MetaData entries interleaved: the author's order is kept
+		"MetaData M { u16 Code `c`, Code Other `o`, u32 Qty, Other Third, char[4] Name, Name Alias `a`, string Text, }\npacket P { Other o, Third t, Alias al, }",
+		"MetaData M { u8 a, a b, u8 c, }\nMetaData N { c d, string e, d f, }\npacket P { b x, f y, }",
 		"options { // o1\n LittleEndian = true; // o2\n // o3\n}\npacket P { u8 x, }",
 		"packet P { // c0\n @leftPad('0') // c1\n char[4] x, // c2\n }",
 		"root packet P { u8 k, match k as b { // m0\n 1 : A, // m1\n // m2\n 2 : Bb, // m3\n }, }\npacket A { }\npacket Bb { }",
